@@ -105,6 +105,35 @@ def c042(ctx):
                 bad = P.order(f, pts, [a]) if pts else [(a, None)]
                 ctx.check(R, f, "info-%s" % ch, not bad, "Edit::info('%s', ..) precedes Manifest::apply on every path" % ch,
                           "Manifest::apply is reachable without the edit carrying '%s'" % ch, pt=a)
+    # recovery replays one log at a time and each replay's edit starts from the manifest's *current* output: 'I' is mani.info('O') read
+    # in the function that writes the edit, not a running value handed in by the caller (a log whose table is already listed applies no
+    # edit and must not advance the chain)
+    f = ctx.fn(R, "lsmtk::kvs::KeyValueStore::recover_one")
+    if f:
+        n_i = 0
+        for ip in P.call_points(f, r"mani::Edit::info$"):
+            cs = [chr(c["v"]) for c in K.arg_consts(f, ip, 1) if "v" in c]
+            if cs != ["I"]:
+                continue
+            n_i += 1
+            src, todo, seen = [], [P.term_at(f, ip)["args"][2]], set()
+            for _depth in range(6):         # through hexdigest / from_hexdigest / and_then / unwrap_or_default
+                nxt = []
+                for o_ in todo:
+                    for x in P.origins(f, o_):
+                        src.append(x)
+                        if x["k"] == "call" and x["pt"] not in seen and not x["callee"].endswith("mani::Manifest::info"):
+                            seen.add(x["pt"])
+                            nxt.extend(x["t"]["args"])
+                todo = nxt
+            from_mani = any(x["k"] == "call" and x["callee"].endswith("mani::Manifest::info") and
+                            any(c.get("v") == ord("O") for c in K.arg_consts(f, x["pt"], 1)) for x in src)
+            from_param = any(x["k"] == "param" and x["i"] >= 1 and "Manifest" not in f.locals[x["i"]] and "LsmtkOptions" not in f.locals[x["i"]] for x in src)
+            ctx.check(R, f, "recovery-I-is-manifest-O", from_mani and not from_param, "the replay's 'I' is the manifest's current 'O'",
+                      "recover_one takes the input setsum of its edit from its caller instead of reading the manifest's current 'O': a log that was "
+                      "already installed (no edit applied) still advances the caller's running value, and the next log's edit does not start from the "
+                      "previous output -- the store refuses to open and the verifier rejects the history", pt=ip)
+        ctx.floor(R, "recover_one: 'I' records", n_i, 1)
     # the three values are the ones computed: O = I - D in the two tree functions
     for name in ("apply_manifest_ingest", "apply_manifest_compaction"):
         f = ctx.fn(R, TREE + name)
